@@ -60,7 +60,7 @@ PRE_STEPS = ["none", "peripheral", "absorption", "covariate", "proportional", "c
 
 
 def budget(tier):
-    return int(os.environ.get("VERIF_BUDGET", 0)) or {"quick": 420, "thorough": 6000}[tier]
+    return int(os.environ.get("VERIF_BUDGET", 0)) or {"quick": 340, "thorough": 6000}[tier]
 
 
 # ---------------------------------------------------------------- generation
@@ -180,6 +180,12 @@ def corpus_cases():
          "base": "plain", "rename": [["CL", "R_CL"]], "seed": 9},
         # fixed omega (fixed by 4dd8d54): replace_fixed_thetas removed it from the parameters
         {"kind": "model", "base": "pheno_linear", "pre": ["fix"], "seed": 10},
+        # data-independent value with data symbols (eval_expr scalar result, fixed by 8459299); symbol-keyed parameters
+        # for evaluate_expression (20af928) and WRES with parameters/dataset (c665448) are exercised by every ODE-free case
+        {"kind": "prog", "stmts": [A("B", "Piecewise((2, APGR < 3), (6, True))"), A("Y", "B + B*EPS_1")],
+         "base": "plain", "rename": [["B", "R_B"]], "seed": 11},
+        {"kind": "prog", "stmts": [A("CL", "POP_CL*exp(ETA_CL)"), A("Y", "CL*WGT + EPS_1")],
+         "base": "plain", "rename": [["CL", "R_CL"]], "seed": 12},
         {"kind": "model", "base": "pheno", "pre": [], "seed": 6},
         {"kind": "model", "base": "pheno", "pre": ["peripheral", "absorption"], "seed": 7},
         {"kind": "model", "base": "pheno_linear", "pre": [], "seed": 8},
